@@ -4,6 +4,7 @@ import FH.RuleA64
 import FH.Pe
 import FH.AnaX64
 import FH.AnaA64
+import FH.PtrAuth
 namespace FH.Driver
 open FH
 
@@ -137,5 +138,9 @@ def handleAna (fs : List (String × String)) : Option String := do
       | some (some r) => "rule:" ++ showRuleA64 r)
   else none
 
-end FH.Driver
+/-- `maxmask <id> a=<hex>`: `PtrAuthMask::from_max_known_address`. -/
+def handleMaxMask (fs : List (String × String)) : Option String := do
+  let a ← (← lookup fs "a") |> parseHex
+  pure ("mask=" ++ toHex (fromMaxKnown a))
 
+end FH.Driver
